@@ -332,6 +332,37 @@ impl C05 {
                 ]),
             );
         }
+        // string kinds: the same tag without any NUL inside the declared size and with
+        // zeroed padding — the text must not be completed from the padding
+        if k <= 2 && size > KINDS[k].2 && size % 8 != 0 {
+            let fixed = KINDS[k].2;
+            let mut t2 = t.clone();
+            for b in &mut t2[fixed..size] {
+                if *b == 0 {
+                    *b = b'z';
+                }
+            }
+            for b in &mut t2[size..] {
+                *b = 0;
+            }
+            let reg = Region::new(ctx.placement, &t2);
+            ctx.eval();
+            let r = catch(|| {
+                let g = DynSizedStructure::<TagHeader>::ref_from_slice(reg.as_slice()).expect("valid bytes");
+                match k {
+                    0 => g.cast::<CommandLineTag>().cmdline().map(|s| s.len()).map_err(|_| ()),
+                    1 => g.cast::<BootLoaderNameTag>().name().map(|s| s.len()).map_err(|_| ()),
+                    _ => g.cast::<ModuleTag>().cmdline().map(|s| s.len()).map_err(|_| ()),
+                }
+            });
+            if let Out::Val(Ok(n)) = r {
+                ctx.violation(
+                    &format!("{}:text-completed-from-padding", name),
+                    J::obj(vec![("kind", J::s(name)), ("declared_size", J::u(size as u64)), ("returned_text_len", J::u(n as u64)), ("tag_bytes", J::hex(&t2))]),
+                );
+            }
+            ctx.count("string:unterminated-with-zero-padding");
+        }
         ctx.nontrivial(mix2(mix2(k as u64, size as u64), embedded as u64));
         if ctx.want_sample() && size == KINDS[k].2 + 5 && !embedded {
             ctx.sample(J::obj(vec![("kind", J::s(name)), ("declared_size", J::u(size as u64)), ("expected", J::s(format!("{:?}", exp))), ("tag_bytes", J::S(hex_trunc(&t, 64)))]));
